@@ -432,6 +432,7 @@ def moonrise(
                 delta = datetime.timedelta(days=1)
             new_date = date + delta
             info = riseset(new_date, observer)
+            rise = None
             if info[0]:
                 rise = info[0].astimezone(tzinfo)  # type: ignore
                 rd = rise.date()
@@ -439,6 +440,14 @@ def moonrise(
                     rise = None
         return rise
     else:
+        # No moonrise on the UTC day; the one that falls on the date in the
+        # requested time zone may be on the previous or next UTC day
+        for delta in (datetime.timedelta(days=-1), datetime.timedelta(days=1)):
+            info = riseset(date + delta, observer)
+            if info[0]:
+                rise = info[0].astimezone(tzinfo)  # type: ignore
+                if rise.date() == date:
+                    return rise
         raise ValueError("Moon never rises on this date, at this location")
 
 
@@ -477,6 +486,7 @@ def moonset(
                 delta = datetime.timedelta(days=1)
             new_date = date + delta
             info = riseset(new_date, observer)
+            set = None
             if info[1]:
                 set = info[1].astimezone(tzinfo)  # type: ignore
                 sd = set.date()
@@ -484,6 +494,14 @@ def moonset(
                     set = None
         return set
     else:
+        # No moonset on the UTC day; the one that falls on the date in the
+        # requested time zone may be on the previous or next UTC day
+        for delta in (datetime.timedelta(days=-1), datetime.timedelta(days=1)):
+            info = riseset(date + delta, observer)
+            if info[1]:
+                set = info[1].astimezone(tzinfo)  # type: ignore
+                if set.date() == date:
+                    return set
         raise ValueError("Moon never sets on this date, at this location")
 
 
